@@ -37,4 +37,21 @@ def shownWallSecs (z : Zoned) : Int :=
 def shownWallFrac (z : Zoned) : Int :=
   if z.utc.time.frac ≥ 1000000000 ∧ wallSecs z % 60 ≠ 59 then z.utc.time.frac - 1000000000 else z.utc.time.frac
 
+/-- a data format for the `(i64, i32)` tuple of `TimeDelta` (`serialize_tuple` / `deserialize_tuple` of two
+integer fields); the only thing assumed of it is `Faithful`: a pair that fits `(i64, i32)` comes back as the
+same pair (trusted: serde_json, bincode) -/
+structure PairFormat where
+  E : Type
+  putPair : Int × Int → E
+  getPair : E → Option (Int × Int)
+def PairFormat.Faithful (F : PairFormat) : Prop :=
+  ∀ a b, Chrono.Spec.Ts.isI64 a → isI32 b → F.getPair (F.putPair (a, b)) = some (a, b)
+
+/-- `TimeDelta` through a tuple format: `Serialize`, store, load, `Deserialize` (a tuple the format cannot
+load is a deserialization error) -/
+def deltaRoundTrip (F : PairFormat) (d : Delta) : Chrono.M.Serde.SR Delta :=
+  match F.getPair (F.putPair (Chrono.M.Serde.TimeDelta.serialize d)) with
+  | some p => Chrono.M.Serde.TimeDelta.deserialize p
+  | none => .err
+
 end Chrono.Spec.Serde
